@@ -92,6 +92,12 @@ func GenSet(tier string) []GenSpec {
 			fed("usefunctionsyntaxforexecutioncontext"),
 			probeOverlay("customrootswl", "customroots", wl),
 			probeOverlay("godirectivesfn", "godirectives", map[string]string{"use_function_syntax_for_execution_context": "true"}),
+			// every boolean option at once (found sound by tools_optsweep.py after F24/F25; omit_root_models is left out where a
+			// field returns a root type, which that option cannot serve)
+			probeOverlay("modelsall", "models", allOptions(true)),
+			probeOverlay("customrootsall", "customroots", allOptions(true)),
+			probeOverlay("godirectivesall", "godirectives", allOptions(true)),
+			probeOverlay("namingall", "naming", allOptions(false)),
 			probeOverlay("customrootsfn", "customroots", map[string]string{"use_function_syntax_for_execution_context": "true"}),
 			GenSpec{GenConfig: pipeline.GenConfig{Name: "nullabledirectives", Dir: "codegen/testserver/nullabledirectives", Config: "gqlgen.yml", Stub: "stub.go", Schema: []string{"*.graphql"}},
 				ExecPkg: "codegen/testserver/nullabledirectives/generated"},
@@ -104,4 +110,19 @@ func GenSet(tier string) []GenSpec {
 		)
 	}
 	return set
+}
+
+// allOptions: every documented boolean option switched away from its default.
+func allOptions(omitRootModels bool) map[string]string {
+	m := map[string]string{
+		"omit_slice_element_pointers": "true", "omit_getters": "true", "omit_interface_checks": "true", "omit_complexity": "true",
+		"omit_gqlgen_file_notice": "true", "omit_gqlgen_version_in_file_notice": "true", "omit_resolver_fields": "true",
+		"omit_panic_handler": "true", "use_function_syntax_for_execution_context": "true", "call_argument_directives_with_null": "true",
+		"struct_fields_always_pointers": "false", "return_pointers_in_unmarshalinput": "true", "resolvers_always_return_pointers": "true",
+		"nullable_input_omittable": "true", "enable_model_json_omitempty_tag": "true", "enable_model_json_omitzero_tag": "true",
+	}
+	if omitRootModels {
+		m["omit_root_models"] = "true"
+	}
+	return m
 }
